@@ -506,7 +506,7 @@ func hostile(c *Ctx, cs *h.Case, d []byte, freshp, longp *rjson.Buffer) {
 					c.Rec.AddViolation(h.Violation{Property: c.Prop, Oracle: "handler offset that does not fit inside the input is not reported as an error", Entry: kindName[kind], Family: cs.Family, Desc: cs.Describe(), InputB64: b64(d), InputQ: h.Quote(d), Script: script, Expected: "error (" + why + ")", Observed: fmt.Sprintf("p=%d err=<nil>", p), Seed: c.Seed, Tier: c.Tier})
 				}
 			}
-			if c.Rec.WantSample() && mustFail && len(pr.log) > 1 && c.Rec.R.Cases%997 == 1 {
+			if mustFail && len(pr.log) > 1 && c.Rec.CN("hostile_programs_eligible_as_samples")%2003 == 1 && c.Rec.WantSample() {
 				c.Rec.Sample(map[string]interface{}{"input": h.Quote(d), "how": cs.Describe(), "entry": kindName[kind], "program": script, "p": p, "err": errStr(err)})
 			}
 		}
